@@ -234,3 +234,109 @@ func checkSharedStateSharedLock(c *Ctx, rule string, scope []string, min int) {
 	}
 	c.MinInstances(rule, n, min)
 }
+
+// sharedRefFields: per struct type, the reference-typed fields that some function copies from
+// one value of the type into a newly built one (so that several handles point at one object).
+func sharedRefFields(p *Program, scope []string) map[string]map[string]bool {
+	out := map[string]map[string]bool{}
+	for _, fn := range p.OwnFuncs {
+		if !inScope(fn, scope) || len(fn.Blocks) == 0 {
+			continue
+		}
+		for _, b := range fn.Blocks {
+			for _, in := range b.Instrs {
+				al, ok := in.(*ssa.Alloc)
+				if !ok {
+					continue
+				}
+				owner, st := ownerOfFieldBase(al.Type())
+				if st == nil {
+					continue
+				}
+				for _, r := range *al.Referrers() {
+					fa, ok := r.(*ssa.FieldAddr)
+					if !ok {
+						continue
+					}
+					for _, rr := range *fa.Referrers() {
+						s, ok := rr.(*ssa.Store)
+						if !ok || s.Addr != ssa.Value(fa) {
+							continue
+						}
+						u, isLoad := s.Val.(*ssa.UnOp)
+						if !isLoad {
+							continue
+						}
+						src, isFA := u.X.(*ssa.FieldAddr)
+						if !isFA || src.Field != fa.Field {
+							continue
+						}
+						if o, _ := ownerOfFieldBase(src.X.Type()); o != owner {
+							continue
+						}
+						isRef := false
+						switch t := st.Field(fa.Field).Type().Underlying().(type) {
+						case *types.Map, *types.Chan:
+							isRef = true
+						case *types.Pointer:
+							_, isRef = t.Elem().Underlying().(*types.Struct)
+						}
+						if m, _ := isMutexType(st.Field(fa.Field).Type()); m {
+							isRef = false
+						}
+						if isRef {
+							if out[owner] == nil {
+								out[owner] = map[string]bool{}
+							}
+							out[owner][st.Field(fa.Field).Name()] = true
+						}
+					}
+				}
+			}
+		}
+	}
+	return out
+}
+
+// checkSharedRefNotRepointed: a field through which several handles share one object is
+// never assigned after construction — re-pointing one handle leaves the others on the old
+// object. Changes to the shared object must be made in place.
+func checkSharedRefNotRepointed(c *Ctx, rule string, scope []string, min int) {
+	p := c.P
+	shared := sharedRefFields(p, scope)
+	n := 0
+	for owner, fields := range shared {
+		for f := range fields {
+			n++
+			var bad []string
+			for _, fn := range p.OwnFuncs {
+				if !inScope(fn, scope) || len(fn.Blocks) == 0 {
+					continue
+				}
+				for _, b := range fn.Blocks {
+					for _, in := range b.Instrs {
+						st, ok := in.(*ssa.Store)
+						if !ok {
+							continue
+						}
+						fa, ok := st.Addr.(*ssa.FieldAddr)
+						if !ok {
+							continue
+						}
+						o, s := ownerOfFieldBase(fa.X.Type())
+						if o != owner || s == nil || s.Field(fa.Field).Name() != f {
+							continue
+						}
+						if _, fresh := fa.X.(*ssa.Alloc); fresh {
+							continue // initialising a value under construction
+						}
+						bad = append(bad, FuncKey(fn)+" at "+p.InstrPos(st)+" assigns "+T(st.Val).String())
+					}
+				}
+			}
+			sort.Strings(bad)
+			c.Require(rule, owner+"."+f, "-", "a field through which derived handles share one object is only set while a handle is constructed; later changes happen inside the shared object", len(bad) == 0, strings.Join(bad, "; "))
+		}
+	}
+	c.MinInstances(rule, n, min)
+}
